@@ -120,17 +120,36 @@ def tree_str(t, kinds):
     return f"{tree_str(t[1], kinds)}*{t[2]}"
 
 
-def evaluate(t, kinds, pool):
-    """Returns (built object, model leaf list)."""
+def elements_of(obj):
+    return list(getattr(obj, "moves", None) if hasattr(obj, "moves") else getattr(obj, "operations", []) or [])
+
+
+def evaluate(t, kinds, pool, trace=None):
+    """Returns (built object, model leaf list).  `trace` collects every intermediate result with the ids of its
+    elements at creation time: an operand that is used again later must still be what it was."""
     if t[0] == "leaf":
         obj = pool[kinds[t[1]]][t[1]]
         return obj, [obj]
     if t[0] == "add":
-        lo, lm = evaluate(t[1], kinds, pool)
-        ro, rm = evaluate(t[2], kinds, pool)
-        return lo + ro, lm + rm
-    o, m = evaluate(t[1], kinds, pool)
-    return o * t[2], m * t[2]
+        lo, lm = evaluate(t[1], kinds, pool, trace)
+        ro, rm = evaluate(t[2], kinds, pool, trace)
+        res = lo + ro
+        out = (res, lm + rm)
+    else:
+        o, m = evaluate(t[1], kinds, pool, trace)
+        res = o * t[2]
+        out = (res, m * t[2])
+    if trace is not None:
+        trace.append((res, [id(e) for e in elements_of(res)], tree_str(t, kinds)))
+    return out
+
+
+def operands_intact(trace):
+    for obj, ids, desc in trace:
+        now = [id(e) for e in elements_of(obj)]
+        if now != ids:
+            return ("operand-modified", f"the composite built for {desc} had {len(ids)} elements when it was created and has {len(now)} after it was used as an operand")
+    return None
 
 
 def is_nontrivial(t):
@@ -163,10 +182,14 @@ def check_move_tree(t, kinds, pool):
     from quansino.moves.exchange import CompositeExchangeMove
 
     s = tree_str(t, kinds)
+    trace = []
     try:
-        obj, model = evaluate(t, kinds, pool)
+        obj, model = evaluate(t, kinds, pool, trace)
     except Exception as exc:
         return ("raises:" + type(exc).__name__, f"{s}: {exc!r}"[:300])
+    bad = operands_intact(trace)
+    if bad:
+        return (bad[0], f"{s}: {bad[1]}")
     if not isinstance(obj, CompositeMove):
         return ("not-composite", f"{s}: result is a {type(obj).__name__}")
     got = list(obj.moves)
@@ -183,10 +206,14 @@ def check_op_tree(t, kinds, pool):
     from quansino.operations.composite import CompositeOperation
 
     s = tree_str(t, kinds)
+    trace = []
     try:
-        obj, model = evaluate(t, kinds, pool)
+        obj, model = evaluate(t, kinds, pool, trace)
     except Exception as exc:
         return ("op-raises:" + type(exc).__name__, f"{s}: {exc!r}"[:300])
+    bad = operands_intact(trace)
+    if bad:
+        return ("op-" + bad[0], f"{s}: {bad[1]}")
     if type(obj) is not CompositeOperation:
         return ("op-type", f"{s}: result is a {type(obj).__name__}")
     if [id(m) for m in obj.operations] != [id(m) for m in model]:
